@@ -60,7 +60,7 @@ theorem used_adds_up (u : Int) : ∀ (qs : List Qty) (a : Rat) (ld : Option Qty)
       = some ⟨u, a + (qs.map (·.amount)).sum⟩ := by
   intro qs
   induction qs with
-  | nil => intro a ld d _; simp
+  | nil => intro a ld d _; simp [Rat.add_zero]
   | cons q rest ih =>
     intro a ld d hu
     have hq : q.unit = u := hu q (List.mem_cons_self ..)
@@ -84,8 +84,8 @@ theorem C20_vending_conc_used_adds_up (u : Int) (a : Rat) (now : Int) (progs : L
   obtain ⟨qs, h1, h2, h3⟩ := C20_vending_conc_is_sequential_run
     ({ used := some ⟨u, a⟩, remaining := none } : Stock) now progs sched
   refine ⟨qs, h1, h2, ?_⟩
-  show (Cfg.run _ sched).store.used = _
-  rw [h3]
+  have h3' : c.store = qs.foldl dispenseOrKeep _ := h3
+  rw [h3']
   exact used_adds_up u qs a none false (fun q hq => by
     obtain ⟨p, hp, hqp⟩ := h1 q hq
     exact hu p hp q hqp)
